@@ -409,7 +409,12 @@ class YAMLPath:
             elif char == "\\":
                 # Escape the next character
                 escape_next = True
-                if strip_escapes:
+                if (strip_escapes
+                    and collector_level < 1
+                    and segment_type is not PathSegmentTypes.KEYWORD_SEARCH
+                ):
+                    # Collector expressions and Search Keyword parameters are
+                    # parsed again, later; they need their escapes intact.
                     continue
 
             elif (
